@@ -1,7 +1,122 @@
 import PydlVerif.Model.JsonUtil
+import PydlVerif.Model.Interp
+import PydlVerif.Model.BSpline
+import PydlVerif.Model.Combine
 open Lean
 namespace PydlVerif.Driver.C11
+open PydlVerif PydlVerif.Interp PydlVerif.BSpline PydlVerif.Combine
 
-def handle (_j : Json) : Except String Json := throw "C11: no model operations yet"
+def resJ {β} (f : β → Json) : Except String β → Json
+  | .ok v => Json.mkObj [("ok", f v)]
+  | .error e => Json.mkObj [("err", Json.str e)]
+
+def floats (j : Json) (k : String) : Except String (List Float) := do J.list J.float (← J.fld j k)
+def ofFloats (l : List Float) : Json := J.ofList J.ofFloat l
+def bools (j : Json) (k : String) : Except String (List Bool) := do
+  pure ((← J.list J.nat (← J.fld j k)).map (· != 0))
+
+def method (s : String) : Method :=
+  match s with
+  | "traditional" => .traditional
+  | "noconst" => .noconst
+  | "mean" => .mean
+  | "nothing" => .nothing
+  | "damp" => .damp
+  | _ => .unknown
+
+/-- `np.isfinite` -/
+def classifyF (x : Float) : Val Float := if x.isFinite then .fin x else .nonfin
+
+/-- plain mean (numpy sums pairwise: equal to rounding, compared with tolerance) -/
+def meanF (l : List Float) : Float := l.foldl (· + ·) 0 / Float.ofNat l.length
+
+/-- one recorded `iterfit` call: its arguments and what it returned -/
+structure Rec where
+  x : List Float
+  y : List Float
+  iv : Option (List Float)
+  bkspace : Float
+  nord : Nat
+  err : Option String
+  bs : BS Float
+  coeffs : List Float
+  bmask : List Bool
+
+def recOf (j : Json) : Except String Rec := do
+  let err ← J.fOpt J.str j "err"
+  let nord ← J.fNat j "nord"
+  let coeffs ← floats j "coeff"
+  pure { x := ← floats j "x", y := ← floats j "y", iv := ← J.fOpt (J.list J.float) j "iv"
+         bkspace := ← J.fFloat j "bkspace", nord := nord, err := err
+         bs := { nord := nord, breakpoints := (← floats j "bk").toArray
+                 mask := (← bools j "mask").toArray, coeff := coeffs.toArray }
+         coeffs := coeffs, bmask := ← bools j "bmask" }
+
+def sameBits (a b : List Float) : Bool := a.map (·.toBits) == b.map (·.toBits)
+
+/-- the `fit` parameter realised from the recorded calls: a call is answered by the record
+whose arguments are bit-identical to the ones the model passes (groups cover disjoint
+wavelength ranges, so at most one matches); none matching means that the model did not
+follow the code -/
+def fitOf (recs : Array Rec) (_k : Nat) (bkspace : Float) (x y : List Float)
+    (iv : Option (List Float)) : Combine.R (Fit Float) :=
+  let sameIv (r : Rec) : Bool := match iv, r.iv with
+    | none, none => true
+    | some a, some b => sameBits a b
+    | _, _ => false
+  match recs.find? (fun r => sameBits x r.x && sameBits y r.y && sameIv r &&
+      bkspace.toBits == r.bkspace.toBits && r.nord == 3) with
+  | none => .error "model:fit-args-differ"
+  | some r =>
+    match r.err with
+    | some e => .error e
+    | none =>
+      .ok { coeffs := r.coeffs
+            value := fun xs => r.bs.value xs (argsortIns xs)
+            bmask := r.bmask }
+
+def isSortingPerm (keys : List Float) (perm : List Nat) : Bool :=
+  let n := keys.length
+  perm.length == n && (List.range n).all (fun i => perm.contains i) &&
+  (List.range (n - 1)).all (fun i => keys.getD (perm.getD i 0) 0 ≤ keys.getD (perm.getD (i+1) 0) 0)
+
+def handle (j : Json) : Except String Json := do
+  let op ← J.fStr j "op"
+  match op with
+  | "c1f" =>
+    let inp : Input Float := {
+      xshape := ← J.fNats j "xshape", fshape := ← J.fNats j "fshape"
+      ishape := ← J.fOpt (J.list J.nat) j "ishape"
+      x := ← floats j "x", flux := ← floats j "flux", ivar := ← J.fOpt (J.list J.float) j "ivar"
+      newx := ← floats j "newx"
+      binsz := ← J.fOpt J.float j "binsz", maxsep := ← J.fOpt J.float j "maxsep"
+      method := method (← J.fStr j "method") }
+    let perm ← J.fNats j "perm"
+    let recs ← J.array recOf (← J.fld j "fits")
+    let tab ← J.list (fun e => do
+      let a ← J.arr e
+      pure ((← J.bits a[0]!), (← J.float a[1]!))) (← J.fld j "erf")
+    let erf : Float → Float := fun x =>
+      match tab.find? (fun e => e.1 == x.toBits) with
+      | some e => e.2
+      | none => 0.0 / 0.0
+    let argsort : List Float → List Nat := fun keys => if isSortingPerm keys perm then perm else []
+    pure (resJ (fun (r : List Float × List Float) => Json.arr #[ofFloats r.1, ofFloats r.2])
+      (combine1fiber (fitOf recs) argsort medOdd meanF erf classifyF inp))
+  | "groups" =>
+    -- the grouping alone: sizes of the groups for given sorted wavelengths
+    let x ← floats j "x"
+    let isort ← J.fNats j "isort"
+    let maxsep ← J.fFloat j "maxsep"
+    pure (resJ (J.ofList (J.ofList J.ofNat)) (groupsOf x isort maxsep))
+  | "shift" =>
+    let l ← floats j "loglam"
+    let row ← floats j "row"
+    let s ← J.fFloat j "s"
+    pure (Json.arr #[ofFloats (shiftRow l s), ofFloats (pickRow l row)])
+  | "grow" =>
+    let a ← floats j "a"
+    pure (ofFloats (growBad a))
+  | _ => throw s!"C11: unknown op {op}"
 
 end PydlVerif.Driver.C11
